@@ -104,6 +104,15 @@ CHECKS = {
                      'capability kinds, permutations, rotations, unknown codes and 3 packagings; all 65536 NOTIFICATION code/subcode '
                      'pairs x data lengths; ROUTE-REFRESH for all AFI/SAFI x both types; KEEPALIVE.',
                 ref='7 C14', note=E3_NOTE),
+    'C11': dict(level='exploration', engine='E3',
+                technique='exhaustive short-input and TLV-shape enumeration per decoder entry point under a deterministic interpreter-step budget',
+                text='Every decoder entry point is run on all byte strings of length 0..2, on exhaustive type x length x fill x single-octet-'
+                     'override sweeps of every registered link-state TLV, BGP-LS NLRI descriptors, Prefix-SID TLVs, attribute headers '
+                     'and OPEN optional parameters, on all single-octet mutations / truncations of the unit-test corpus and on inputs '
+                     'padded to 4096 octets; each call must finish within 300 + 60*len interpreter steps of yabgp code, and Update.parse '
+                     'must return a result object whenever its two length fields are in range.',
+                ref='7 C11', note='Trusted base: the sys.monitoring step meter (function entries + backward jumps of code under /repo; library code not metered), '
+                     'the enumerated input menus. No random inputs.'),
 }
 
 NOT_YET = 'check not built yet in this session (see DESIGN.md section 7 for the plan); not claimed'
